@@ -129,7 +129,7 @@ LFRewrite(st, content) ==
              s1 == [st.slots EXCEPT ![i] = D]
              j  == FirstFreeFrom(s1, Home[LF], 0)
          IN [slots  |-> [s1 EXCEPT ![j] = Occ(LF, b)],
-             blocks |-> [st.blocks EXCEPT ![b] = [tok |-> content, pos |-> st.cursor, z |-> FALSE, cmp |-> FALSE, big |-> FALSE, kn |-> ""]],
+             blocks |-> [st.blocks EXCEPT ![b] = [tok |-> content, pos |-> st.cursor, z |-> FALSE, cmp |-> FALSE, big |-> FALSE, g |-> FALSE, sz |-> FU, kn |-> ""]],
              cursor |-> st.cursor + FU]
 LFAdd(st, n) == IF ~vlf \/ SlotOf(st.slots, LF) = {} THEN st ELSE LFRewrite(st, LFContent(st.slots, st.blocks) \cup {n})
 \* deviation: update_listfile appends the name unless `content.contains(name)` - a substring test,
@@ -146,7 +146,7 @@ StartNames  == InitSeq \o (IF HasLF0 THEN <<LF>> ELSE <<>>) \o (IF HasAT0 THEN <
 StartBlocks == [k \in 1..Len(StartNames) |->
                    [tok |-> IF StartNames[k] = LF THEN {InitSeq[j] : j \in 1..Len(InitSeq)}
                             ELSE IF StartNames[k] = AT THEN "attrs" ELSE InitTok[StartNames[k]],
-                    pos |-> (k - 1) * FU, z |-> StartNames[k] \notin InitRaw, cmp |-> StartNames[k] \notin InitRaw, big |-> FALSE, kn |-> ""]]
+                    pos |-> (k - 1) * FU, z |-> StartNames[k] \notin InitRaw, cmp |-> StartNames[k] \notin InitRaw, big |-> FALSE, g |-> FALSE, sz |-> FU, kn |-> ""]]
 StartSlots  == BuildSlots([i \in Slots |-> E], StartNames, 1)
 \* slk: alignment slack behind the block table of this file; cn: block count when the file was produced
 \* by compact() (-1: it was not)
@@ -163,9 +163,9 @@ HInit == /\ ddisk = StartImage
          /\ hsnap = View(StartSlots, StartBlocks, {}) /\ lastres = "ok" /\ devs = {} /\ vcalls = 0
 
 (* ---------------------------------- layout ------------------------------------------------------ *)
-DataEnd(blocks) == SetMax({blocks[b].pos + FU : b \in 1..Len(blocks)})
+DataEnd(blocks) == SetMax({blocks[b].pos + blocks[b].sz : b \in 1..Len(blocks)})
 \* entries [tpos, tpos+n) of a block table against the bytes of block b
-Overlaps(tpos, n, blocks, b) == blocks[b].pos < tpos + n /\ tpos < blocks[b].pos + FU
+Overlaps(tpos, n, blocks, b) == blocks[b].pos < tpos + n /\ tpos < blocks[b].pos + blocks[b].sz
 Overrun(tpos, blocks) == {b \in 1..Len(blocks) : Overlaps(tpos, Len(blocks), blocks, b)}
 \* blocks a live hash entry points to
 LiveBlocks(slots) == {slots[i].blk : i \in {j \in Slots : slots[j].st = "O"}}
@@ -258,7 +258,10 @@ AddAppendWith(keyname, dv) ==
     LET f == FindOutcome IN
     /\ pc = "add_find" /\ f # -2 /\ (f >= 0 => opr.rep)
     /\ hslots' = IF f >= 0 THEN [hslots EXCEPT ![f] = D] ELSE hslots
-    /\ hblocks' = Append(hblocks, [tok |-> opr.c, pos |-> hcursor, z |-> (opr.comp # "none" \/ opr.enc # "none"), cmp |-> opr.comp # "none", big |-> opr.big, kn |-> keyname])
+    /\ hblocks' = Append(hblocks, [tok |-> opr.c, pos |-> hcursor, z |-> (opr.comp # "none" \/ opr.enc # "none"), cmp |-> opr.comp # "none", big |-> opr.big,
+                                   \* g: larger than a sector AND stored as one compressed unit: the sectored copy that compact()
+                                   \* produces (every sector compressed on its own) can be much LARGER; sz: units occupied
+                                   g |-> (opr.big /\ opr.comp # "none"), sz |-> FU, kn |-> keyname])
     /\ devs' = devs \cup dv
     /\ hcursor' = hcursor + FU
     /\ opr' = [opr EXCEPT !.blk = Len(hblocks) + 1]
@@ -336,24 +339,28 @@ RenameMark      == /\ pc = "rn_find_b" /\ FindOutcome = -1
 \* a fresh archive (builder, generated listfile) holding `keep` (name -> token); positions restart
 RECURSIVE SeqOf(_)
 SeqOf(S) == IF S = {} THEN <<>> ELSE LET x == CHOOSE y \in S : TRUE IN <<x>> \o SeqOf(S \ {x})
+GrowFactor == 4
 Rebuilt(keep, zof, slk) ==
     LET names  == SeqOf({n \in UNames : keep[n] # None})
         all    == Append(names, LF)
+        szOf(k) == IF all[k] # LF /\ zof[all[k]].g THEN GrowFactor * FU ELSE FU
+        posOf[k \in 1..(Len(all) + 1)] == IF k = 1 THEN 0 ELSE posOf[k - 1] + szOf(k - 1)
         blocks == [k \in 1..Len(all) |-> [tok |-> IF all[k] = LF THEN {names[j] : j \in 1..Len(names)} ELSE keep[all[k]],
-                                          pos |-> (k - 1) * FU,
+                                          pos |-> posOf[k], sz |-> szOf(k),
                                           z   |-> IF all[k] = LF THEN TRUE ELSE (zof[all[k]].z \/ zof[all[k]].b),
                                           big |-> IF all[k] = LF THEN FALSE ELSE zof[all[k]].b,
+                                          g   |-> FALSE,
                                           \* (a sectored file starts with a sector-offset table: garbage does not decode)
                                           cmp |-> IF all[k] = LF THEN TRUE ELSE (zof[all[k]].c \/ zof[all[k]].b),
                                           \* the builder encrypts under the name it is given
                                           kn  |-> IF all[k] # LF /\ zof[all[k]].e THEN all[k] ELSE ""]]
-    IN [slots |-> BuildSlots([i \in Slots |-> E], all, 1), blocks |-> blocks, tpos |-> Len(all) * FU,
+    IN [slots |-> BuildSlots([i \in Slots |-> E], all, 1), blocks |-> blocks, tpos |-> posOf[Len(all) + 1],
         dmg |-> {}, ok |-> TRUE, lf |-> TRUE, slk |-> slk, cn |-> Len(all)]
 \* the session's block of a live name
 BlkOf(n) == hslots[CHOOSE i \in SlotOf(hslots, n) : TRUE].blk
-ZOf == [n \in UNames |-> IF SlotOf(hslots, n) = {} THEN [z |-> FALSE, c |-> FALSE, e |-> FALSE, b |-> FALSE]
+ZOf == [n \in UNames |-> IF SlotOf(hslots, n) = {} THEN [z |-> FALSE, c |-> FALSE, e |-> FALSE, b |-> FALSE, g |-> FALSE]
                          ELSE [z |-> hblocks[BlkOf(n)].z, c |-> hblocks[BlkOf(n)].cmp, e |-> hblocks[BlkOf(n)].kn # "",
-                               b |-> hblocks[BlkOf(n)].big]]
+                               b |-> hblocks[BlkOf(n)].big, g |-> hblocks[BlkOf(n)].g]]
 CompactTo(keep, slk) ==
     LET img == Rebuilt(keep, ZOf, slk) IN
     /\ wopen /\ pc = "idle" /\ NewCall
@@ -447,6 +454,15 @@ CompactRefuseNow ==
     /\ wdirty' = FALSE /\ stale' = ListedNow /\ staleMap' = SessView
     /\ hsnap' = SessView /\ Finish("refused")
     /\ UNCHANGED <<hslots, hblocks, wopen, vlf>>
+\* hypothetical deviation (never in the code; a seeded change): compact() forgets to reset next_file_offset - the
+\* session keeps appending at the end of the OLD file, which lies inside the new one when compaction made it larger
+CompactKeepsCursor ==
+    LET img == Rebuilt(SessView, ZOf, 0) IN
+    /\ wopen /\ pc = "idle" /\ NewCall /\ Unnamed = {}
+    /\ ddisk' = img /\ hslots' = img.slots /\ hblocks' = img.blocks /\ vlf' = TRUE
+    /\ stale' = {n \in UNames : SessView[n] # None} /\ staleMap' = SessView
+    /\ wdirty' = FALSE /\ hsnap' = SessView /\ Finish("ok")
+    /\ UNCHANGED <<hcursor, wopen, devs>>
 CodeSteps   == DesignSteps
 CodeSyncs   == Open \/ FlushClean \/ CloseClean \/ FlushRelocate \/ CloseRelocate \/ CompactNow \/ CompactRefuseNow
 \* as coded at b13f4b7 (after the round-1 fixes, before the six round-2 fix commits)
@@ -474,6 +490,10 @@ ProbeBounded == pcnt < H
 TablesDisjointFromData == ddisk.ok => (Overrun(ddisk.tpos, ddisk.blocks) \cap LiveBlocks(ddisk.slots) = {})
 NoDamage == ddisk.dmg \cap LiveBlocks(ddisk.slots) = {}
 \* the listfile, where present, names exactly the live user files (D-level fact; holds in the design)
+\* the append cursor of an open session never lies inside the on-disk image (after compact() it is the end of
+\* the NEW file, whatever its size)
+CursorBehindImage == (pc = "idle" /\ wopen /\ ddisk.ok) =>
+                        (hcursor >= ddisk.tpos + Len(ddisk.blocks) /\ hcursor >= DataEnd(ddisk.blocks))
 \* read_file inside the session shows the session's view (refuted for the stale-Archive reading of Code1)
 SessionReadStaleAgrees == (pc = "idle" /\ wopen) => \A n \in UNames : SessionReadStale(n) = SessView[n]
 ListfileExact == (pc = "idle" /\ vlf /\ SlotOf(hslots, LF) # {}) =>
